@@ -19,11 +19,25 @@ from typing import Any, Dict, List, Optional, Tuple
 
 from harness import core, detsched, shims, tlc, tracecheck
 
-try:                                    # inline controller (same decisions, fewer OS context switches)
+try:                                    # inline controller + pooled carrier threads (same decisions, far fewer OS context switches)
+    import inspect as _inspect
     from harness import fastsched as _fast
-    _run_execution = _fast.run_execution
-except Exception:                       # pragma: no cover - optional helper of another bundle
-    _run_execution = shims.run_execution
+    _FAST_REUSE = "reuse_threads" in _inspect.signature(_fast.run_execution).parameters
+except Exception:                       # pragma: no cover - optional helper
+    _fast = None
+    _FAST_REUSE = False
+
+
+def _run_execution(build, choose, focus, max_steps=20000):
+    """one controlled execution.  harness/fastsched.py makes the same decisions in the same order as detsched.DetSched
+    (its own self-test asserts that); with reuse_threads the logical threads run on pooled OS threads - thread-local
+    state of the code under test is only the per-thread trampoline, which is idle again after every run (its run() resets
+    it in a finally clause).  Falls back to the plain DetSched when the helper is not there."""
+    if _fast is None:
+        return shims.run_execution(build, choose, focus=focus, max_steps=max_steps)
+    if _FAST_REUSE:
+        return _fast.run_execution(build, choose, focus=focus, max_steps=max_steps, reuse_threads=True)
+    return _fast.run_execution(build, choose, focus=focus, max_steps=max_steps)
 
 
 # ---- exploration order: fewest preemptions first ---------------------------------------------------------------
@@ -465,6 +479,36 @@ def ser_explore(args) -> Dict[str, Any]:
             "exc_samples": exc_samples}
 
 
+def _en(th, o, k):
+    return {"e": "enter", "th": th, "o": o, "k": k, "sk": k}
+
+
+def _ex(th, o):
+    return {"e": "exit", "th": th, "o": o}
+
+
+# binding self-test: hand-made traces with known verdicts ride along in every validation batch
+SER_SELFTEST = [
+    ("overlap", False, [_en(1, 0, "N"), _en(2, 0, "N"), _ex(2, 0), _ex(1, 0)]),
+    ("after_terminal", False, [_en(1, 0, "C"), _ex(1, 0), _en(2, 0, "N"), _ex(2, 0)]),
+    ("two_terminals", False, [_en(1, 0, "N"), _ex(1, 0), _en(1, 0, "E"), _ex(1, 0), _en(1, 0, "C"), _ex(1, 0)]),
+    ("unbalanced", False, [_en(1, 0, "N")]),
+    ("deadlock_event", False, [_en(1, 0, "N"), _ex(1, 0), {"e": "deadlock", "th": 0}]),
+    ("reentrant_same_thread", True, [_en(1, 0, "N"), _en(1, 0, "C"), _ex(1, 0), _ex(1, 0)]),
+    ("two_observers_two_threads", True, [_en(1, 0, "N"), _en(2, 1, "N"), _ex(2, 1), _ex(1, 0), _en(2, 0, "C"), _ex(2, 0)]),
+    ("serial_two_threads", True, [_en(1, 0, "N"), _ex(1, 0), _en(2, 0, "N"), _ex(2, 0), _en(1, 0, "E"), _ex(1, 0)]),
+]
+
+
+def check_selftest(kind: str, selftest, base: int, rejected) -> List[Tuple[int, int]]:
+    """the self-test traces sit at positions base.. of the batch: verify their verdicts, return the other rejections"""
+    rej = {i for (i, _) in rejected}
+    for j, (name, accept, _) in enumerate(selftest):
+        if ((base + j) not in rej) != accept:
+            raise tlc.TLCFailure(f"{kind} trace specification self-test: trace '{name}' should be {'accepted' if accept else 'rejected'}")
+    return [(i, u) for (i, u) in rejected if i < base]
+
+
 def ser_witness(tr: List[Dict[str, Any]], upto: int) -> Dict[str, Any]:
     """describe the event the monitor rejected (diagnosis + the fields known-finding entries match on)"""
     if upto >= len(tr):
@@ -500,14 +544,19 @@ def tr_src_kind(tr: List[Dict[str, Any]], frame: Dict[str, Any]) -> str:
 
 
 SER_TRACE_INVS = ["NoOverlap", "Grammar", "BalancedAtEnd"]
-SER_TRACE_CONSTS = dict(Threads={1, 2, 3}, Obs=set(range(0, 10)), Families={"trace"}, FixedSet={True}, MaxN=0)
+SER_TRACE_CONSTS = dict(Threads={1, 2, 3}, Obs=set(range(0, 10)), Families={"trace"}, DiscSet={"intended"}, MaxN=0)
 ALL_FAMILIES = {"merge", "merge_outer", "zip", "combine_latest", "with_latest_from", "amb", "window"}
 
 
+BEFORE_FIX_FAMILIES = {"merge_outer", "zip", "combine_latest", "with_latest_from"}
+
+
 def ser_design(threads: int, maxn: int, workers: int = 4, timeout: int = 900):
-    """the lock-discipline model over all interleavings: intended discipline must satisfy the monitor (TLC error otherwise);
-    returns (result, {family: set of monitor invariants the AS-IMPLEMENTED discipline can violate})"""
-    consts = dict(Threads=set(range(1, threads + 1)), Obs={0, 1, 2}, Families=ALL_FAMILIES, FixedSet={True, False}, MaxN=maxn)
+    """the lock-discipline model over all interleavings: the intended discipline must satisfy the monitor (TLC error otherwise);
+    returns (result, {family: monitor invariants the AS-IMPLEMENTED discipline can violate}).  Negative control: the
+    discipline of the tree before this bundle's fixes must violate the monitor for exactly the four repaired families."""
+    consts = dict(Threads=set(range(1, threads + 1)), Obs={0, 1, 2}, Families=ALL_FAMILIES,
+                  DiscSet={"intended", "implemented", "before_fix"}, MaxN=maxn)
     cfg = tlc.cfg_text(consts, invariants=["TypeOK", "LockOK", "DesignNoOverlap", "DesignGrammar", "Predict"], deadlock=True)
     res = tlc.run("Serialize", cfg, workers=workers, timeout=timeout, coverage=True, allow_violation=False)
     need = ("Start", "Acquire", "Decide", "Guard", "DoEnter", "DoExit", "Finish", "Terminated")
@@ -515,8 +564,12 @@ def ser_design(threads: int, maxn: int, workers: int = 4, timeout: int = 900):
     if never:
         raise tlc.TLCFailure(f"vacuous Serialize design run: actions never taken {never}")
     pred: Dict[str, set] = {f: set() for f in ALL_FAMILIES}
+    control: Dict[str, set] = {f: set() for f in ALL_FAMILIES}
     for ln in res.lines:
-        pred[ln["predict"]].add(ln["violates"])
+        (pred if ln["disc"] == "implemented" else control)[ln["predict"]].add(ln["violates"])
+    bad = {f for f in ALL_FAMILIES if bool(control[f]) != (f in BEFORE_FIX_FAMILIES)}
+    if bad:
+        raise tlc.TLCFailure(f"negative control of the lock-discipline model failed for {sorted(bad)}: {control}")
     return res, pred
 
 
@@ -531,43 +584,60 @@ def ser_scenarios(tier: str, seed: int) -> List[Dict[str, Any]]:
             out.append({"op": op, "scripts": [list(x) for x in scripts], "order": order})
     if quick:
         for op in ("merge", "zip", "combine_latest"):
-            add(op, ("NNC", "NNE"), 4)          # two elements each: two threads can both be delivering an element
-            add(op, ("NC", "NE"), 2)
+            add(op, ("NNC", "NNE"), 6)          # two elements each: two threads can both be delivering an element
+            add(op, ("NC", "NE"), 6)
         for op in ("with_latest_from", "amb"):    # asymmetric operators: both orientations
-            add(op, ("NC", "NE"), 4)
-            add(op, ("NE", "NC"), 4)
+            add(op, ("NC", "NE"), 6)
+            add(op, ("NE", "NC"), 6)
     else:
-        pairs = [(a, b) for a in ("C", "E", "NC", "NE", "NNC", "NNE") for b in ("C", "E", "NC", "NE", "NNC", "NNE") if "N" in a + b]
+        pairs = [(a, b) for a in ("NC", "NE", "NNC", "NNE") for b in ("NC", "NE", "NNC", "NNE")] + \
+                [("C", "NNC"), ("E", "NNC"), ("NNC", "C"), ("NNC", "E")]
         for op in ("merge", "zip", "combine_latest", "with_latest_from", "amb"):
             for pr in pairs:
-                add(op, pr, 20)
+                add(op, pr, 8)
     # an outer source on its own thread handing out inner sources that emit on theirs
     if quick:
-        add("flat_map", ("NE", "NNC"), 3)
-        add("merge_all", ("NE", "NC"), 2)
-        add("merge_mc1", ("NE", "NC"), 1)
+        add("flat_map", ("NE", "NNC"), 4)
+        add("merge_all", ("NE", "NC"), 6)
+        add("merge_mc1", ("NE", "NC"), 4)
+        add("merge_mc2", ("NC", "NE", "NC"), 3)
     else:
-        outer = [(a, b) for a in ("NC", "NE", "NNC") for b in ("C", "E", "NC", "NE", "NNC", "NNE")] + \
-                [("NNC", "NC", "NE"), ("NNE", "NNC", "NC"), ("NNC", "NE", "NNC")]
+        outer = [("NE", "NNC"), ("NC", "NNC"), ("NNE", "NC"), ("NNC", "NE"), ("NE", "NE"), ("NNC", "NC", "NE"), ("NNE", "NNC", "NC"),
+                 ("NNC", "NE", "NNC")]
         for op in ("merge_all", "flat_map", "merge_mc1", "merge_mc2"):
             for scr in outer:
-                add(op, scr, 20)
+                add(op, scr, 6)
     # time/count windows: the source on its thread, the window timers on the scheduler's threads; S = one time unit
     win_all = [("NSNC",), ("NNSE",), ("SNSC",), ("NSNSNC",), ("NNSNNSC",), ("SSNE",), ("NSSNC",), ("SC",), ("SE",)]
     for k, op in enumerate(WINDOW_OPS):
-        for scr in ([win_all[k % 2]] if quick else win_all):
+        for scr in (win_all[:2] if quick else win_all):
             add(op, scr, 1)
     # three sources
-    tri = [("NC", "NC", "NE")] if quick else [("NC", "NC", "NE"), ("NNC", "NC", "NC"), ("NE", "NNC", "NC"), ("NC", "NE", "NNC"), ("E", "NNC", "NNC")]
-    for op in (("merge3", "zip3", "combine_latest3") if quick else ("merge3", "zip3", "combine_latest3", "with_latest_from3", "amb3")):
+    tri = [("NC", "NC", "NE")] if quick else [("NC", "NC", "NE"), ("NNC", "NC", "NC"), ("NE", "NNC", "NC"), ("NC", "NE", "NNC")]
+    for op in ("merge3", "zip3", "combine_latest3", "with_latest_from3", "amb3"):
         for scr in tri:
-            add(op, scr, 2 if quick else 24)
+            add(op, scr, 4 if quick else 8)
     return out
+
+
+def _preload() -> None:
+    """import the library in the parent so that the forked workers do not each compile it again"""
+    import reactivex  # noqa: F401
+    import reactivex.operators  # noqa: F401
+    import reactivex.scheduler  # noqa: F401
+    import reactivex.subject  # noqa: F401
+    from reactivex.observable import combinelatest, withlatestfrom, zip as _zip  # noqa: F401
+    from reactivex.operators import _amb, _merge, _observeon, _windowwithtime, _windowwithtimeorcount  # noqa: F401
+    from reactivex.scheduler import eventloopscheduler, newthreadscheduler, timeoutscheduler  # noqa: F401
+    sp_autodetach()
+    rec_class("ObserveOnObserver")
+    rec_class("ScheduledObserver")
 
 
 def _pool_map(fn, jobs, procs: int, timeout: int):
     """fork pool with an overall deadline (a hang of the controlled scheduler is a machinery failure, not a verdict)"""
     import multiprocessing as mp
+    _preload()
     pool = mp.get_context("fork").Pool(procs)          # fork before any thread exists
     try:
         return pool, pool.map_async(fn, jobs, chunksize=1)
@@ -581,7 +651,7 @@ def ser_run(pid: str, tier: str, rule: str, assumptions: List[str]) -> int:
     ck.rule = rule
     quick = tier == "quick"
     bound = 2 if quick else 3
-    nrandom = 1 if quick else 150
+    nrandom = 5 if quick else 150
     scs = ser_scenarios(tier, ck.seed)
 
     def budget(sc, lines):
@@ -591,30 +661,36 @@ def ser_run(pid: str, tier: str, rule: str, assumptions: List[str]) -> int:
             return 1500
         fam = FAMILY_OF[sc["op"]]
         if lines:
-            return 25
+            return 150
         if fam == "merge_outer":
-            return 40 if sc["op"] == "flat_map" else 75
-        return {"window": 40}.get(fam, 30 if len(sc["scripts"]) > 2 else 20)
+            return 250
+        return {"window": 200}.get(fam, 200 if len(sc["scripts"]) > 2 else 150)
     # two granularities of switch points: lock acquisitions + the sink's points ("sync"), and additionally every line of
     # the combinator's own file ("lines").  quick: sync everywhere, lines for one arrival order per operator and script tuple
     jobs = []
-    seen_lines = set()
+    lines_count: Dict[str, int] = {}
     for sc in scs:
         if quick:
             jobs.append((sc, bound, budget(sc, False), nrandom, ck.seed, False))
-            key = (sc["op"], json.dumps(sc["scripts"]))
-            mid = arrival_orders(["".join(x) for x in sc["scripts"]], 10 ** 6, ck.seed) if len(sc["scripts"]) == 2 and FAMILY_OF[sc["op"]] != "merge_outer" else None
-            if mid is not None and key not in seen_lines and sc["order"] == mid[(len(mid) // 2 + ck.seed) % len(mid)]:
-                seen_lines.add(key)
-                jobs.append((sc, 1, budget(sc, True), 0, ck.seed, True))
+            # line granularity, bound 2 to completion where affordable: the first two (alternating) arrival orders of every
+            # two-source script tuple, one order for outer-source operators and windows
+            fam = FAMILY_OF[sc["op"]]
+            key = sc["op"] + json.dumps(sc["scripts"])
+            n = lines_count.get(key, 0)
+            if fam in ("window", "merge_outer"):
+                if n < 1:
+                    lines_count[key] = n + 1
+                    jobs.append((sc, 2, 1500, 0, ck.seed, True))
+            elif len(sc["scripts"]) == 2 and n < 2:
+                lines_count[key] = n + 1
+                jobs.append((sc, 2, 4500, 0, ck.seed, True))
         else:
-            jobs.append((sc, bound, 1500, nrandom, ck.seed, True))
-            jobs.append((sc, bound, 600, nrandom // 3, ck.seed + 1, False))
-    # longest first so the pool drains evenly
+            jobs.append((sc, bound, 3000, 100, ck.seed, True))
+            jobs.append((sc, bound, 800, 30, ck.seed + 1, False))
     jobs.sort(key=lambda j: -j[2])
     import time as _time
     t_start = _time.time()
-    pool, pending = _pool_map(ser_explore, jobs, procs=8, timeout=0)
+    pool, pending = _pool_map(ser_explore, jobs, procs=6 if quick else 8, timeout=0)
     design: Dict[str, Any] = {}
 
     def do_design():
@@ -650,10 +726,12 @@ def ser_run(pid: str, tier: str, rule: str, assumptions: List[str]) -> int:
     ck.note("scenarios_with_arrival_order", len(scs))
     ck.note("scenarios_by_largest_preemption_count_explored_completely", complete)
     ck.note("thread_exception_samples", exc_samples[:5])
-    rejected, ress = tracecheck.validate("SerializeTrace", SER_TRACE_CONSTS, [b[0] for b in batch], invariants=SER_TRACE_INVS,
-                                         timeout=1800, chunk=4000)
+    rejected, ress = tracecheck.validate("SerializeTrace", SER_TRACE_CONSTS, [b[0] for b in batch] + [t for (_, _, t) in SER_SELFTEST],
+                                         invariants=SER_TRACE_INVS, timeout=1800, chunk=100000)
+    rejected = check_selftest("SerializeTrace", SER_SELFTEST, len(batch), rejected)
+    ck.note("trace_spec_selftest", f"{len(SER_SELFTEST)} hand-made traces judged as expected ({sum(1 for x in SER_SELFTEST if not x[1])} rejected)")
     for r in ress:
-        ck.add_tlc(r, f"trace validation ({len(batch)} distinct traces)")
+        ck.add_tlc(r, f"trace validation ({len(batch)} distinct traces + {len(SER_SELFTEST)} self-test traces)")
     for (idx, upto) in rejected:
         tr, sc, n, dec, lines = batch[idx]
         w = ser_witness(tr, upto)
@@ -684,7 +762,8 @@ def ser_run(pid: str, tier: str, rule: str, assumptions: List[str]) -> int:
     if "err" in design:
         raise design["err"]
     res, pred = design["res"]
-    ck.add_tlc(res, "design: lock-discipline model, all interleavings, intended + as-implemented disciplines")
+    ck.add_tlc(res, "design: lock-discipline model, all interleavings; intended + as-implemented disciplines, pre-fix discipline as negative control")
+    ck.note("negative_control_pre_fix_discipline_refuted_for", sorted(BEFORE_FIX_FAMILIES))
     ck.note("design_predicted_violations_as_implemented", {f: sorted(v) for f, v in pred.items()})
     ck.note("observed_violations_real_code", {f: sorted(v) for f, v in seen_viol.items()})
     for fam in sorted(ALL_FAMILIES):
@@ -985,6 +1064,31 @@ SO_TRACE_CONSTS = dict(Producers={0, 1, 2, 3}, LoopThreads=set(range(11, 31)), M
 SO_TRACE_INVS = ["TypeOK", "OneTerminal", "NothingAfterFault"]
 
 
+def _c(th, k, v):
+    return [{"e": "call", "th": th, "k": k, "v": v}, {"e": "ret", "th": th}]
+
+
+def _d(th, k, v, raised=False):
+    return [{"e": "dstart", "th": th, "k": k, "v": v}, {"e": "dend", "th": th, "raised": raised}]
+
+
+_IDLE = [{"e": "idle", "th": 0}]
+SO_SELFTEST = [
+    ("delivered_twice", False, _c(1, "N", 1) + _d(11, "N", 1) + _d(11, "N", 1) + _IDLE),
+    ("out_of_order", False, _c(1, "N", 1) + _c(1, "N", 2) + _d(11, "N", 2) + _d(11, "N", 1) + _IDLE),
+    ("undelivered_while_idle", False, _c(1, "N", 1) + _c(1, "C", 0) + _d(11, "N", 1) + _IDLE),
+    ("wrong_thread", False, _c(1, "N", 1) + _d(1, "N", 1) + _IDLE),
+    ("after_fault", False, _c(1, "N", 1) + _c(1, "N", 2) + _d(11, "N", 1, True) + _d(11, "N", 2) + _IDLE),
+    ("overlapping_deliveries", False, _c(1, "N", 1) + _c(1, "N", 2) + [_d(11, "N", 1)[0], _d(12, "N", 2)[0], _d(12, "N", 2)[1], _d(11, "N", 1)[1]] + _IDLE),
+    ("never_received", False, _c(1, "N", 1) + _d(11, "N", 7) + _IDLE),
+    ("after_terminal_delivered", False, _c(1, "C", 0) + _c(1, "N", 2) + _d(11, "C", 0) + _d(11, "N", 2) + _IDLE),
+    ("deadlock_event", False, _c(1, "N", 1) + [{"e": "deadlock", "th": 0}]),
+    ("fault_leaves_rest", True, _c(1, "N", 1) + _c(1, "N", 2) + _d(11, "N", 1, True) + _IDLE),
+    ("delivery_inside_call", True, [_c(1, "N", 1)[0]] + _d(11, "N", 1) + [_c(1, "N", 1)[1]] + _c(1, "C", 0) + _d(12, "C", 0) + _IDLE),
+    ("call_after_terminal_ignored", True, _c(1, "N", 1) + _c(1, "C", 0) + _c(1, "N", 2) + _d(11, "N", 1) + _d(11, "C", 0) + _IDLE),
+]
+
+
 def so_witness(tr: List[Dict[str, Any]], upto: int) -> Dict[str, Any]:
     if upto >= len(tr):
         return {"failure": "unfinished"}
@@ -1023,15 +1127,15 @@ def so_scenarios(tier: str, seed: int) -> List[Dict[str, Any]]:
             out.append({"kind": kind, "scripts": [list(x) for x in scripts], "sched": sched, "raise_at": raise_at, "order": order,
                         "budget": budget})
     if quick:
-        add("observe_on", ("NNC",), "eventloop", 0, 1, 60)
-        add("observe_on", ("NNNE",), "eventloop", 0, 1, 40)
-        add("observe_on", ("NNC",), "eventloop", 2, 1, 40)
-        add("observe_on", ("NCN",), "eventloop_exit", 0, 1, 30)
-        add("observe_on", ("NNC",), "newthread", 0, 1, 40)
-        add("observe_on", ("NNC",), "timeout", 1, 1, 30)
-        add("observe_on_merge", ("NC", "NE"), "eventloop", 0, 1, 50)
-        add("replay", ("NNC", "U"), "eventloop", 0, 2, 50)
-        add("replay", ("NNE", "U"), "newthread", 2, 1, 40)
+        add("observe_on", ("NNC",), "eventloop", 0, 1, 400)
+        add("observe_on", ("NNNE",), "eventloop", 0, 1, 400)
+        add("observe_on", ("NNC",), "eventloop", 2, 1, 300)
+        add("observe_on", ("NCN",), "eventloop_exit", 0, 1, 300)
+        add("observe_on", ("NNC",), "newthread", 0, 1, 300)
+        add("observe_on", ("NNC",), "timeout", 1, 1, 300)
+        add("observe_on_merge", ("NC", "NE"), "eventloop", 0, 3, 300)
+        add("replay", ("NNC", "U"), "eventloop", 0, 4, 300)
+        add("replay", ("NNE", "U"), "newthread", 2, 2, 300)
     else:
         for sched in ("eventloop", "eventloop_exit", "newthread", "timeout"):
             for scr in ("C", "NC", "NNC", "NNNC", "NNNNC", "NNE", "NCN", "NEC", "NNN"):
@@ -1101,12 +1205,12 @@ def so_run(pid: str, tier: str, rule: str, assumptions: List[str]) -> int:
     jobs = []
     for sc in scs:
         if quick:
-            jobs.append((sc, bound, sc["budget"], 1, ck.seed, True))
+            jobs.append((sc, bound, sc["budget"], 10, ck.seed, True))
         else:
-            jobs.append((sc, bound, 1200, 100, ck.seed, True))
+            jobs.append((sc, bound, 1500, 100, ck.seed, True))
             jobs.append((sc, bound, 300, 30, ck.seed + 1, False))
     t0 = _time.time()
-    pool, pending = _pool_map(so_explore, jobs, procs=8, timeout=0)
+    pool, pending = _pool_map(so_explore, jobs, procs=6 if quick else 8, timeout=0)
     design: Dict[str, Any] = {}
 
     def do_design():
@@ -1136,10 +1240,12 @@ def so_run(pid: str, tier: str, rule: str, assumptions: List[str]) -> int:
             batch.append((tr, r["scenario"], n, dec, lines, so_id))
     if ck.extra.get("conc_steplimit"):
         raise RuntimeError("step limit hit in a C32 execution (machinery)")
-    rejected, ress = tracecheck.validate("ScheduledObserverTrace", SO_TRACE_CONSTS, [b[0] for b in batch], invariants=SO_TRACE_INVS,
-                                         timeout=1800, chunk=4000)
+    rejected, ress = tracecheck.validate("ScheduledObserverTrace", SO_TRACE_CONSTS, [b[0] for b in batch] + [t for (_, _, t) in SO_SELFTEST],
+                                         invariants=SO_TRACE_INVS, timeout=1800, chunk=100000)
+    rejected = check_selftest("ScheduledObserverTrace", SO_SELFTEST, len(batch), rejected)
+    ck.note("trace_spec_selftest", f"{len(SO_SELFTEST)} hand-made traces judged as expected ({sum(1 for x in SO_SELFTEST if not x[1])} rejected)")
     for r in ress:
-        ck.add_tlc(r, f"trace validation ({len(batch)} distinct per-observer traces)")
+        ck.add_tlc(r, f"trace validation ({len(batch)} distinct per-observer traces + {len(SO_SELFTEST)} self-test traces)")
     for (idx, upto) in rejected:
         tr, sc, n, dec, lines, so_id = batch[idx]
         w = so_witness(tr, upto)
